@@ -53,12 +53,16 @@ def make_jobs(tier, seed, scale, avoid, unreachable):
         first = rng.below(1 << 30)
         for i in range(0, nx64, chunk):
             add("x64", first + i, min(chunk, nx64 - i), ["--shrink", "250"])
-        # systematic CFG shapes: every shape with <= 4 body blocks (tiny profile) + seeded samples of the 5-block shapes
-        nsh = int(n4 * min(1.0, scale))
-        for i in range(0, nsh, 98):
-            add("shapes", i, min(98, nsh - i), ["--shrink", "150"])
+        # systematic CFG shapes: every shape with <= 3 body blocks + seeded samples of the 4- and 5-block shapes (tiny profile),
+        # + seeded samples with the medium / pressure profiles
+        n3 = sum((1 + 2 * n) ** n for n in range(1, 4))
+        nsh = int(n3 * min(1.0, scale))
+        for i in range(0, nsh, 53):
+            add("shapes", i, min(53, nsh - i), ["--shrink", "150"])
         for k in range(int(8 * scale) or 1):
-            add("shapes", n4 + rng.below(ns - n4 - 60), 60, ["--shrink", "150"])
+            add("shapes", n3 + rng.below(n4 - n3 - 50), 50, ["--shrink", "150"])
+        for k in range(int(8 * scale) or 1):
+            add("shapes", n4 + rng.below(ns - n4 - 50), 50, ["--shrink", "150"])
         for k in range(int(6 * scale) or 1):
             add("shapes", ns + rng.below(ns - 50), 50, ["--shrink", "150"])
         for k in range(int(6 * scale) or 1):
